@@ -13,6 +13,11 @@ package core
 //@   property C05
 //@   pure
 //@   ensures err == nil <==> k != nil
+// an entry is accepted only if the WHOLE string starts with the key prefix (strings.HasPrefix on the entry itself returned
+// true), what follows the prefix is what is base64-decoded, and the decoded 32 bytes are the key
+//@   ensures err == nil ==> callcount(strings.HasPrefix) == 1 && resultof(strings.HasPrefix, r) && argof(strings.HasPrefix, s) == encoded && argof(strings.HasPrefix, prefix) == keys.DHPublicKeyPrefix
+//@   ensures err == nil ==> callcount(base64.Encoding.DecodeString) == 1 && resultof(base64.Encoding.DecodeString, err) == nil && len(encoded) >= 10 &&
+//@        argof(base64.Encoding.DecodeString, s) == encoded[10:] && len(resultof(base64.Encoding.DecodeString, b)) == 32 && bytes(*k) == bytes(resultof(base64.Encoding.DecodeString, b))
 //@   defines err == nil ==> wellFormedKey(bytes(*k))
 
 // Every key in the parsed list came from a well-formed entry; any parse error yields no list at all.
